@@ -13,7 +13,6 @@ harness/sm/iocaps_matrix.cpp                  the real io_capabilities_matrix, a
 """
 import json
 import os
-import re
 import shutil
 import subprocess
 from concurrent.futures import ThreadPoolExecutor
@@ -96,13 +95,6 @@ def build_config(c, k, objs, may_fail=False):
         raise
 
 
-def build_configs(c, configs, objs, jobs=8):
-    """-> dict name -> exe (None when a keyboard x LESC configuration does not compile)"""
-    with ThreadPoolExecutor(jobs) as ex:
-        exes = list(ex.map(lambda k: build_config(c, k, objs, may_fail=(k["in"] == 2 and k["kind"] != 0)), configs))
-    return {cfg_name(k): e for k, e in zip(configs, exes)}
-
-
 def run_script(c, exe, name, lines):
     sp = vlib.write_lines(os.path.join(c.build_dir, name + ".txt"), lines)
     tp = os.path.join(c.build_dir, name + ".ndjson")
@@ -135,9 +127,8 @@ def crash_findings(c, tp, what):
 # ------------------------------------------------------------------------------------------
 # C36
 # ------------------------------------------------------------------------------------------
-def c36_configs():
-    return [{"kind": kind, "in": i, "out": o, "mitm": m, "bond": 0}
-            for kind in (0, 1, 2) for i in (0, 1, 2) for o in (0, 1) for m in (0, 1)]
+def c36_configs(kind, keyboard):
+    return [{"kind": kind, "in": i, "out": o, "mitm": m} for i in ((0, 1, 2) if keyboard else (0, 1)) for o in (0, 1) for m in (0, 1)]
 
 
 def c36_rows(c):
@@ -155,17 +146,20 @@ def c36_rows(c):
     return rows
 
 
-def c36_script(rows):
+def c36_script(configs, rows):
     lines = []
-    for (data, io, oobf, a, mk, idist, rdist) in rows:
-        lines.append("reset %d -1" % data)
-        lines.append("req %d %d %d %d %d %d" % (io, oobf, a, mk, idist, rdist))
+    for k in configs:
+        lines.append("cfg %d %d %d %d" % (k["kind"], k["in"], k["out"], k["mitm"]))
+        for (data, io, oobf, a, mk, idist, rdist) in rows:
+            lines.append("reset %d" % data)
+            lines.append("req %d %d %d %d %d %d" % (io, oobf, a, mk, idist, rdist))
     return lines
 
 
-def c36_signature(ev, ctx, kind):
+def c36_signature(ev, ctx):
     if ev.get("e") == "Matrix":
         return "matrix:in=%d:out=%d:remote=%d:legacy=%s:lesc=%s:lio=%d" % (ev["in"], ev["out"], ev["io"], ev["legacy"], ev["lesc"], ev["lio"])
+    kind = KINDS[ev["kind"]]
     exp = ctx.get("expected")
     if exp == "failed":
         return "req:%s:accepted_or_wrong_error:io=%s:oobf=%s:maxkey=%s:idist=%s:rdist=%s:sc=%d" % (
@@ -181,8 +175,43 @@ def c36_signature(ev, ctx, kind):
         return "family:%s:expected=%s:got=%s:rauth_sc=%d" % (kind, fam, ev["family"], (ev["rauth"] >> 3) & 1)
     if ev["alg"] == ctx["tableonly"] and not ctx["mitm"]:
         return "method:%s:no_mitm_requested:table_used:expected=%s:got=%s" % (fam, exp, ev["alg"])
+    if ev["alg"] == "oob" and ev["roob"] == 0 and ev["oobdata"]:
+        return "method:%s:%s:oob_selected_but_response_oob_flag_0:oobf=%d" % (fam, kind, ev["oobf"])
     return "method:%s:%s:oobf=%d:roob=%d:data=%d:mitm=%d:expected=%s:got=%s" % (
         fam, kind, ev["oobf"], ev["roob"], int(ev["oobdata"]), int(ctx["mitm"]), exp, ev["alg"])
+
+
+def c36_build(c, objs, kinds=(0, 1, 2)):
+    """one binary per manager kind holding all its IO configurations; -> {kind: (exe, keyboard_configs_included)}.
+    The LESC managers are built with and without the pairing_keyboard configurations (those do not compile at the
+    time of writing); the variant with them is preferred when it builds."""
+    def job(kind, keyboard):
+        try:
+            return vlib.build(c, "iocaps_req_%d%s" % (kind, "" if keyboard else "_nokb"),
+                              ["sm/iocaps_req.cpp", vlib.REPO + "/bluetoe/utility/address.cpp"], compiler="clang++", link=objs,
+                              defines=["ONLY_KIND=%d" % kind] + ([] if keyboard else ["NO_LESC_KEYBOARD"]))
+        except vlib.ToolFailure as e:
+            if keyboard and kind != 0:
+                c.note("iocaps_req kind=%d with pairing_keyboard does not compile: %s" % (kind, str(e)[-400:].replace("\n", " ")[:300]))
+                return None
+            raise
+    jobs = [(k, True) for k in kinds] + [(k, False) for k in kinds if k != 0]
+    with ThreadPoolExecutor(len(jobs)) as ex:
+        res = dict(zip(jobs, ex.map(lambda j: job(*j), jobs)))
+    out = {}
+    for k in kinds:
+        out[k] = (res[(k, True)], True) if res[(k, True)] else (res[(k, False)], False)
+    return out
+
+
+def c36_build_findings(c, built):
+    for k, (exe, kb) in built.items():
+        if not kb:
+            c.finding("build:%s:in=keyboard:does_not_compile" % KINDS[k],
+                      "%s security manager with pairing_keyboard does not compile (io_capabilities_matrix::"
+                      "sm_pairing_request_yes_no needs a member pairing_keyboard lacks): this local IO configuration cannot "
+                      "be used at all; its table cells are checked through io_capabilities_matrix only" % KINDS[k],
+                      {"build_only": True, "kind": k})
 
 
 def run_c36(c):
@@ -193,77 +222,67 @@ def run_c36(c):
                       "through io_capabilities_matrix directly"]
     vlib.model_check(c, SPECDIR, "IoCapsMC.tla", "IoCapsMC.cfg", workers=2)
     objs = crypto_objects(c)
-    configs = c36_configs()
     if c.replay:
         return replay_c36(c, objs)
-    matrix = vlib.build(c, "iocaps_matrix", ["sm/iocaps_matrix.cpp"], compiler="clang++")
-    exes = build_configs(c, configs, objs)
-    for k in configs:
-        if exes[cfg_name(k)] is None and k["mitm"] == 0:
-            c.finding("build:%s:in=keyboard:out=%d:does_not_compile" % (KINDS[k["kind"]], k["out"]),
-                      "%s_security_manager with pairing_keyboard (out=%d) does not compile: this local IO configuration "
-                      "cannot be used at all" % (KINDS[k["kind"]], k["out"]), {"config": k, "build_only": True})
+    with ThreadPoolExecutor(2) as ex:
+        fm = ex.submit(lambda: vlib.build(c, "iocaps_matrix", ["sm/iocaps_matrix.cpp"], compiler="clang++"))
+        built = c36_build(c, objs)
+        matrix = fm.result()
+    c36_build_findings(c, built)
     rows = c36_rows(c)
-    script = c36_script(rows)
-    traces, owner = [], {}
+    traces = []
     mt = os.path.join(c.build_dir, "matrix.ndjson")
     rc, out = vlib.run_harness(matrix, [mt])
     if rc != 0:
         raise vlib.ToolFailure("iocaps_matrix failed: " + out[-1000:])
-    traces.append(mt)
-    owner[mt] = None
-    built = [k for k in configs if exes[cfg_name(k)]]
-    for k in built:
-        tp = run_script(c, exes[cfg_name(k)], "c36_" + cfg_name(k), script)
-        traces.append(tp)
-        owner[tp] = k
-    # a few files per TLC instance would save JVM starts, but one file per configuration keeps replays simple
+    nconf = 0
+    for k, (exe, kb) in sorted(built.items()):
+        configs = c36_configs(k, kb)
+        nconf += len(configs)
+        for part, cs in enumerate(vlib.chunks(configs, 1 if c.quick else 3)):
+            traces.append(run_script(c, exe, "c36_%d_%d" % (k, part), c36_script(cs, rows)))
+    with open(traces[0], "a") as f:                 # the 35 matrix cells ride along with the first trace (one JVM less)
+        f.write(open(mt).read())
     verdicts = vlib.validate_parallel(SPECDIR, "IoCapsTrace.tla", "IoCapsTrace.cfg", traces)
     counts = {}
     for tp, v in verdicts.items():
-        k = owner[tp]
         evs = vlib.read_ndjson(tp)
         for e in evs:
             counts[e["e"]] = counts.get(e["e"], 0) + 1
         ctx = contexts(v)
-        n_exec = sum(1 for e in evs if e["e"] == "Reset") if k else len(evs) - 1
-        c.add_traces(n_exec, v.events)
+        c.add_traces(sum(1 for e in evs if e["e"] != "Reset"), v.events)
         crash_findings(c, tp, "C36 " + os.path.basename(tp))
         for ln in v.mismatch_lines:
             ev = evs[ln - 1]
-            kind = KINDS[k["kind"]] if k else "matrix"
-            sig = c36_signature(ev, ctx.get(ln, {}), kind)
-            c.finding(sig, "%s in=%s out=%s mitm=%s: row %s is not the Core specification's row (expected %s)"
-                      % (kind, k and k["in"], k and k["out"], k and k["mitm"],
-                         {x: ev.get(x) for x in ("io", "oobf", "auth", "oobdata", "rsp", "rio", "roob", "rauth", "alg", "family", "legacy", "lesc")},
-                         ctx.get(ln)),
-                      {"config": k, "event": ev, "prev": evs[ln - 2] if ln >= 2 else None})
-        if k and k["kind"] == 2 and k["in"] == 1 and k["out"] == 1 and k["mitm"] == 1:
-            c.sample([e for e in evs[:8]])
+            c.finding(c36_signature(ev, ctx.get(ln, {})),
+                      "row %s is not the Core specification's row (expected %s)"
+                      % ({x: ev.get(x) for x in ("kind", "in", "out", "mitm", "io", "oobf", "auth", "oobdata", "rsp", "rio", "roob",
+                                                 "rauth", "alg", "family", "legacy", "lesc", "lio") if x in ev}, ctx.get(ln)),
+                      {"event": ev})
+        c.sample([e for e in evs if e["e"] != "Reset"][:3])
     c.extra["events_by_action"] = counts
-    c.extra["rule"] = ("grid enumerated by checks/sm.py: %d buildable configurations x %d requests (remote IO 0..5,255 x OOB flag x "
-                       "local OOB data x AuthReq %s + malformed fields); oracle = IoCaps.tla evaluated by TLC on every row"
-                       % (len(built), len(rows), "0..31 + RFU samples" if c.quick else "0..255"))
-    c.extra["configs_not_buildable"] = [cfg_name(k) for k in configs if not exes[cfg_name(k)]]
+    c.extra["rule"] = ("grid enumerated by checks/sm.py: %d buildable manager configurations (kind x input x output x MITM option) x "
+                       "%d requests (remote IO 0..5,255 x OOB flag x local OOB data x AuthReq %s + malformed fields) + 35 cells of "
+                       "io_capabilities_matrix; oracle = IoCaps.tla evaluated by TLC on every row"
+                       % (nconf, len(rows), "0..31 + RFU samples" if c.quick else "0..255"))
+    c.extra["keyboard_configs_buildable"] = {KINDS[k]: kb for k, (e, kb) in built.items()}
     c.exhaustive = True
 
 
 def replay_c36(c, objs):
     case = json.load(open(c.replay))["case"]
-    k = case["config"]
     if case.get("build_only"):
-        exe = build_config(c, k, objs, may_fail=True)
-        if exe is None:
-            c.finding("build:%s:in=keyboard:out=%d:does_not_compile" % (KINDS[k["kind"]], k["out"]), "still does not compile", case)
+        c36_build_findings(c, c36_build(c, objs, kinds=(case["kind"],)))
         return
-    if k is None:
+    ev = case["event"]
+    if ev["e"] == "Matrix":
         matrix = vlib.build(c, "iocaps_matrix", ["sm/iocaps_matrix.cpp"], compiler="clang++")
         tp = os.path.join(c.build_dir, "matrix.ndjson")
         vlib.run_harness(matrix, [tp])
     else:
-        exe = build_config(c, k, objs)
-        ev = case["event"]
-        tp = run_script(c, exe, "replay", ["reset %d -1" % int(ev["oobdata"]),
+        exe, kb = c36_build(c, objs, kinds=(ev["kind"],))[ev["kind"]]
+        tp = run_script(c, exe, "replay", ["cfg %d %d %d %d" % (ev["kind"], ev["in"], ev["out"], int(ev["mitm"])),
+                                           "reset %d" % int(ev["oobdata"]),
                                            "req %d %d %d %d %d %d" % (ev["io"], ev["oobf"], ev["auth"], ev["maxkey"], ev["idist"], ev["rdist"])])
     v = vlib.validate_trace(SPECDIR, "IoCapsTrace.tla", "IoCapsTrace.cfg", tp)
     evs = vlib.read_ndjson(tp)
@@ -271,11 +290,236 @@ def replay_c36(c, objs):
     c.sample(evs[:4])
     ctx = contexts(v)
     for ln in v.mismatch_lines:
-        kind = KINDS[k["kind"]] if k else "matrix"
-        c.finding(c36_signature(evs[ln - 1], ctx.get(ln, {}), kind), "replayed row rejected: %s expected %s" % (evs[ln - 1], ctx.get(ln)), case)
+        c.finding(c36_signature(evs[ln - 1], ctx.get(ln, {})), "replayed row rejected: %s expected %s" % (evs[ln - 1], ctx.get(ln)), case)
+
+
+# ------------------------------------------------------------------------------------------
+# C32 - C35
+# ------------------------------------------------------------------------------------------
+def K(kind, i, o, bond, mitm=0):
+    return {"kind": kind, "in": i, "out": o, "mitm": mitm, "bond": bond}
+
+
+QUICK_CONFIGS = [K(0, 2, 1, 1), K(1, 1, 1, 0), K(1, 0, 0, 1), K(2, 1, 1, 1)]
+THOROUGH_CONFIGS = ([K(0, i, o, b) for i in (0, 1, 2) for o in (0, 1) for b in (0, 1)] +
+                    [K(kind, i, o, b) for kind in (1, 2) for i in (0, 1) for o in (0, 1) for b in (0, 1)] +
+                    [K(0, 2, 1, 1, mitm=1), K(1, 1, 1, 0, mitm=1)])
+
+# inputs of the generator model: requests <<io, oob flag, AuthReq, max key size, initiator / responder key distribution>>
+LEGACY_REQS = [(2, 0, 4, 16, 0, 0), (0, 0, 4, 16, 0, 0), (3, 0, 0, 16, 0, 0), (3, 1, 5, 16, 7, 7)]
+LESC_REQS = [(4, 0, 12, 16, 0, 0), (2, 0, 12, 16, 0, 0), (3, 0, 8, 16, 0, 0), (1, 1, 13, 16, 7, 7)]
+BAD_REQS = [(5, 0, 12, 16, 0, 0), (1, 0, 12, 6, 0, 0)]
+# PDUs <<opcode, length class 0 ok / 1 short / 2 long, label 0 honest / 1 wrong (confirm: 1 wrong TK, 2 flipped bit)>>
+PROTOCOL_PDUS = [(3, 0, 0), (3, 0, 1), (3, 1, 0), (4, 0, 0), (4, 0, 1), (4, 2, 0), (12, 0, 0), (12, 0, 1), (12, 1, 0),
+                 (13, 0, 0), (13, 0, 1), (13, 1, 0)]
+SUFFIX = ["find 0", "enc 1", "poll", "poll", "poll", "find 0", "find 3"]
+
+
+def gen_inputs(c, k):
+    """input alphabet of the generator model for configuration k -> (requests, pdus, syncs, oobs, finds, enc inputs?, depth)"""
+    reqs = list(BAD_REQS[:1] if c.quick else BAD_REQS)
+    if k["kind"] != 1:
+        reqs += LEGACY_REQS
+    if k["kind"] != 0:
+        reqs += LESC_REQS
+    if k["kind"] == 1:
+        reqs += LEGACY_REQS[2:3]
+    nc = k["kind"] != 0 and k["in"] == 1 and k["out"] == 1
+    if c.quick:
+        # every behaviour is followed by SUFFIX (find / encrypt / poll probes), so the quick generator leaves those inputs out
+        pdus = list(PROTOCOL_PDUS) + [(11, 0, 0), (1, 1, 0)]
+        syncs = [-1, 0, 1] if (nc and k["kind"] == 1) else [-1]
+        oobs = ["TRUE"] if k["kind"] == 0 else ["FALSE"]     # legacy OOB needs local data; LESC OOB is reached by the request's flag
+        return reqs, pdus, syncs, oobs, [], False, (6 if k["kind"] == 0 else 8)
+    # thorough: every opcode 0..15, more length variants, encryption changes as inputs, both OOB settings, all answer timings
+    pdus = list(PROTOCOL_PDUS) + [(3, 0, 2), (3, 2, 0), (4, 1, 0), (12, 2, 0), (13, 2, 0), (1, 1, 0), (1, 2, 0)]
+    pdus += [(op, 0, 0) for op in (0, 2, 5, 6, 7, 8, 9, 10, 11, 14, 15)]
+    return reqs, pdus, ([-1, 0, 1] if nc else [-1]), ["FALSE", "TRUE"], [], True, {0: 7, 1: 9, 2: 8}[k["kind"]]
+
+
+def tla_set(tuples):
+    return "{ " + ", ".join("<<" + ",".join(str(x) for x in t) + ">>" for t in tuples) + " }"
+
+
+def tla_cfg(k, oob, sync):
+    return ('[kind |-> "%s", in |-> %d, out |-> %d, mitm |-> %s, bond |-> %s, oob |-> %s, sync |-> %d]'
+            % (KINDS[k["kind"]], k["in"], k["out"], "TRUE" if k["mitm"] else "FALSE", "TRUE" if k["bond"] else "FALSE", oob, sync))
+
+
+def generate_behaviours(c, specdir, configs):
+    """one TLC run: transition cover for all configurations -> {cfg_name: [behaviour]} (behaviour[0] = reset op)"""
+    cfgs, reqcases, depthcases = [], [], []
+    pdus = finds = encs = None
+    for k in configs:
+        reqs, pdus, syncs, oobs, finds, encs, depth = gen_inputs(c, k)
+        sel = 'c.kind = "%s" /\\ c.in = %d /\\ c.out = %d' % (KINDS[k["kind"]], k["in"], k["out"])
+        cfgs += [tla_cfg(k, o, s) for o in oobs for s in syncs]
+        reqcases.append("%s -> %s" % (sel, tla_set(reqs)))
+        depthcases.append("%s -> %d" % (sel, depth))
+    name = "GenRun"
+    with open(os.path.join(specdir, name + ".tla"), "w") as f:
+        f.write("---- MODULE %s ----\nEXTENDS SecurityManagerGen\nRConfigs == {\n  %s }\nRReqsOf(c) == CASE %s\n  [] OTHER -> {}\n"
+                "RDepthOf(c) == CASE %s\n  [] OTHER -> 0\nRPdus == %s\n====\n"
+                % (name, ",\n  ".join(cfgs), "\n  [] ".join(reqcases), "\n  [] ".join(depthcases), tla_set(pdus)))
+    cfg = os.path.join(specdir, name + ".cfg")
+    with open(cfg, "w") as f:
+        f.write('CONSTANTS GConfigs <- RConfigs GReqsOf <- RReqsOf GDepthOf <- RDepthOf GPdus <- RPdus GFinds = {%s} GEnc = %s\n'
+                '  Enforce <- AllProps Configs <- NoRequests Requests <- NoRequests Opcodes <- NoOps LenClasses <- NoOps\n'
+                'SPECIFICATION GSpec\nVIEW GView\nACTION_CONSTRAINT EmitEdge\nCHECK_DEADLOCK FALSE\n'
+                % (", ".join(str(x) for x in finds), "TRUE" if encs else "FALSE"))
+    behs = vlib.generate(c, specdir, name + ".tla", cfg, workers=1, timeout=2400)
+    res, seen = {cfg_name(k): [] for k in configs}, set()
+    for b in behs:
+        t = json.dumps(b)
+        if t in seen:
+            continue
+        seen.add(t)
+        r = b[0]                        # ["reset", oob, sync, kind, in, out, mitm, bond]
+        key = "sm_%d%d%d%d%d" % (r[3], r[4], r[5], r[6], r[7])
+        res[key].append([r[:3]] + b[1:])
+    return res
+
+
+def script_of(b):
+    lines = [" ".join(str(x) for x in op) for op in b]
+    return lines + SUFFIX
+
+
+def out_kind(ev):
+    if "olen" not in ev:
+        return "-"
+    if ev["olen"] == 0:
+        return "none"
+    return {(5, 2): "failed", (2, 7): "response", (3, 17): "confirm", (4, 17): "random", (12, 65): "pubkey", (13, 17): "dhkey",
+            (6, 17): "ltk", (7, 11): "ediv_rand"}.get((ev["oop"], ev["olen"]), "other")
+
+
+def sm_signature(prop, ev, ctx, k):
+    """stable description of a rejected event: event kind + the spec state (printed by TLC) it was rejected in"""
+    kind, e, o = KINDS[k["kind"]], ev.get("e"), out_kind(ev)
+    if e == "Crash":
+        return "crash:%s" % ev.get("what")
+    if prop == "C32":
+        if o == "dhkey":        # the peripheral's DHKey check Eb was sent although the guard does not allow it
+            where = "phase=lesc_rand" if ctx.get("phase") == "lesc_rand" else "stale_answer:phase=%s" % ctx.get("phase")
+            return "%s:dhkey_unverified:%s:ea=%s:user=%s:label=%s" % (e, where, ctx.get("ea"), ctx.get("user"), ev.get("label", "-"))
+        if o == "failed" and ev.get("st") != "idle":
+            return "%s:failed_but_not_idle:st=%s" % (e, ev.get("st"))
+        return "%s:op=%s:lc=%s:label=%s:out=%s:phase=%s:mconf=%s:ea=%s:user=%s" % (
+            e, ev.get("op", "-"), ev.get("lc", "-"), ev.get("label", "-"), o, ctx.get("phase"), ctx.get("mconf"), ctx.get("ea"), ctx.get("user"))
+    if prop == "C33":
+        return "Find:which=%s:kid=%s:phase=%s:pairedOk=%s:fam=%s:dbsame=%s" % (
+            ev.get("which"), ev.get("kid"), ctx.get("phase"), ctx.get("pairedOk"), ctx.get("fam"), ev.get("dbsame"))
+    if prop == "C34":
+        return "%s:%s:enc=%s:budget=%s:phase=%s" % (e, o, ctx.get("enc"), "+".join(sorted(ctx.get("budget", []))), ctx.get("phase"))
+    return "status:%s:%s:alg=%s:user=%s:shown=%s:reported=%s:at=%s:%s" % (
+        kind, ctx.get("fam"), ctx.get("alg"), ctx.get("user"), ctx.get("shown"), ev.get("lstat"), e, o)
+
+
+def validate_sm(c, traces, prop):
+    with ThreadPoolExecutor(max(1, min(len(traces), vlib.NCPU // 2))) as ex:
+        res = list(ex.map(lambda p: vlib.validate_trace(SPECDIR, "SecurityManagerTrace.tla", "Trace.cfg", p, env={"PROP": prop}), traces))
+    return dict(zip(traces, res))
+
+
+def report_sm(c, k, tp, v, counts):
+    execs = vlib.split_executions(tp)
+    ctx = contexts(v)
+    c.add_traces(len(execs), v.events)
+    for first, evs in execs:
+        for e in evs:
+            key = e["e"] + (":" + out_kind(e) if "olen" in e else "")
+            counts[key] = counts.get(key, 0) + 1
+    for ln in v.mismatch_lines:
+        first, evs = [x for x in execs if x[0] <= ln][-1]
+        ev = evs[ln - first]
+        sig = sm_signature(c.prop, ev, ctx.get(ln, {}), k)
+        ops = replay_ops(evs[:ln - first + 1])
+        c.finding(sig, "%s in=%d out=%d bond=%d: after %s the call %s is not a step of SecurityManager with guard %s (spec state %s)"
+                  % (KINDS[k["kind"]], k["in"], k["out"], k["bond"], ops[:-1], {x: ev[x] for x in ev if x != "out"}, c.prop, ctx.get(ln)),
+                  {"config": k, "script": ops})
+
+
+def replay_ops(evs):
+    ops = []
+    for ev in evs:
+        e = ev["e"]
+        if e == "Reset":
+            ops.append("reset %d %d" % (int(ev["oob"]), ev["sync"]))
+        elif e == "Req":
+            ops.append("req %d %d %d %d %d %d" % (ev["io"], ev["oobf"], ev["auth"], ev["maxkey"], ev["idist"], ev["rdist"]))
+        elif e == "Pdu":
+            ops.append("pdu %d %d %d" % (ev["op"], ev["lc"], ev["label"]))
+        elif e == "Poll":
+            ops.append("poll")
+        elif e == "User":
+            ops.append("user %d" % int(ev["answer"]))
+        elif e == "Enc":
+            ops.append("enc %d" % int(ev["on"]))
+        elif e == "Find":
+            ops.append("find %d" % ev["which"])
+    return ops
+
+
+def run_sm(c):
+    c.assumptions += ["symbolic cryptography: a wrong value never verifies (wrong = one flipped bit / confirm for another TK / "
+                      "point off the curve), an honest value is what the reference toolbox computes",
+                      "the application may answer a numeric comparison question at any time after it was asked (it is handed a "
+                      "pairing_yes_no_response& it may store)",
+                      "link layer behaviour emulated as in link_layer.hpp: find_key on LL_ENC_REQ, is_encrypted()/pairing_status() "
+                      "on encryption changes, l2cap_output polled at any time",
+                      "bond data base = harness object with one preset bond; security toolbox = tests/security_manager/test_sm.hpp"]
+    objs = crypto_objects(c)
+    if c.replay:
+        return replay_sm(c, objs)
+    configs = QUICK_CONFIGS if c.quick else THOROUGH_CONFIGS
+    specdir = os.path.join(c.build_dir, "spec")
+    shutil.copytree(os.path.join(vlib.SPEC, SPECDIR), specdir)
+    mc_cfgs = ["MCq.cfg" if c.quick else "MC.cfg"] + ([] if c.quick or c.prop != "C32" else ["MC_track.cfg"])
+    with ThreadPoolExecutor(12) as ex:
+        f_gen = ex.submit(generate_behaviours, c, specdir, configs)
+        f_mc = [ex.submit(vlib.model_check, c, SPECDIR, "MCSM.tla", cfg, workers=4, timeout=2400, coverage=not c.quick) for cfg in mc_cfgs]
+        f_build = [ex.submit(build_config, c, k, objs) for k in configs]
+        exes = [f.result() for f in f_build]
+        gen = f_gen.result()
+        behs = [gen[cfg_name(k)] for k in configs]
+        for f in f_mc:
+            f.result()
+    traces, owner = [], {}
+    for k, exe, bs in zip(configs, exes, behs):
+        c.note("%s: %d behaviours (transition cover), %d inputs" % (cfg_name(k), len(bs), sum(len(b) for b in bs)))
+        c.sample({"config": k, "behaviour": bs[len(bs) // 2]}, limit=8)
+        nparts = max(1, min(4, sum(len(b) + len(SUFFIX) for b in bs) // 25000))
+        for i, part in enumerate(vlib.chunks(bs, nparts)):
+            tp = run_script(c, exe, "sm_%s_%d" % (cfg_name(k), i), [l for b in part for l in script_of(b)])
+            traces.append(tp)
+            owner[tp] = k
+    verdicts = validate_sm(c, traces, c.prop)
+    counts = {}
+    for tp, v in verdicts.items():
+        report_sm(c, owner[tp], tp, v, counts)
+    c.extra["events_by_action"] = counts
+    c.extra["configs"] = [cfg_name(k) for k in configs]
+    c.extra["rule"] = ("behaviours = for every reachable state of SecurityManager (all guards on, depth bound %d) its shortest input "
+                       "sequence followed by each input (transition cover), each followed by the probes %s"
+                       % (gen_inputs(c, configs[-1])[6], SUFFIX))
+    c.exhaustive = False
+
+
+def replay_sm(c, objs):
+    case = json.load(open(c.replay))["case"]
+    k = case["config"]
+    with ThreadPoolExecutor(2) as ex:                  # the design-level check is part of every run (evidence: states)
+        f = ex.submit(vlib.model_check, c, SPECDIR, "MCSM.tla", "MCq.cfg", workers=4, timeout=2400, coverage=False)
+        exe = build_config(c, k, objs)
+        f.result()
+    tp = run_script(c, exe, "replay", case["script"])
+    v = vlib.validate_trace(SPECDIR, "SecurityManagerTrace.tla", "Trace.cfg", tp, env={"PROP": c.prop})
+    c.sample(vlib.read_ndjson(tp)[:12])
+    report_sm(c, k, tp, v, {})
 
 
 def run(c):
     if c.prop == "C36":
         return run_c36(c)
-    raise vlib.ToolFailure("not implemented yet")
+    return run_sm(c)
